@@ -122,6 +122,8 @@ func (br *BrokerBatchRows) TryAppend(appendFunc func(row *BrokerRow) error) erro
 	if len(br.rows) <= br.rowCount {
 		br.rows = append(br.rows, BrokerRow{})
 	}
+	// the row may be reused from a previous batch(pooled), reset the mark of that batch's eviction
+	br.rows[br.rowCount].IsOutOfTimeRange = false
 	if err := appendFunc(&br.rows[br.rowCount]); err != nil {
 		return err
 	}
